@@ -732,6 +732,27 @@ pub fn hook_generate_type(env: crate::intermediate::TaggingEnvironment, implied:
     let mut backend = crate::generator::rasn::Rasn::default();
     match backend.generate_module(vec![tld]) { Ok(m) if m.warnings.is_empty() => Ok(m.generated.unwrap_or_default()), Ok(m) => Err(format!("warnings: {:?}", m.warnings.iter().map(|w| w.to_string()).collect::<Vec<_>>())), Err(e) => Err(format!("{e:?}")) }
 }
+/// accessors for the native replay of the Verus unit GEN_members (token text as proc_macro2 prints it)
+#[cfg(not(kani))]
+pub fn hook_format_sequence_member(m: &crate::intermediate::types::SequenceOrSetMember, parent: &str, ext: &str) -> Result<(String, String), String> {
+    let ext: proc_macro2::TokenStream = ext.parse().unwrap();
+    crate::generator::rasn::Rasn::default().format_sequence_member(m, parent, ext).map(|(d, nt)| (d.to_string(), format!("{nt:?}"))).map_err(|e| format!("{e:?}"))
+}
+#[cfg(not(kani))]
+pub fn hook_format_choice_option(o: &crate::intermediate::types::ChoiceOption, parent: &str, ext: &str) -> Result<String, String> {
+    let ext: proc_macro2::TokenStream = ext.parse().unwrap();
+    let g = crate::generator::rasn::Rasn::default();
+    let name = g.to_rust_enum_identifier(&o.name);
+    g.format_choice_option(name, o, parent, ext).map(|d| d.to_string()).map_err(|e| format!("{e:?}"))
+}
+#[cfg(not(kani))]
+pub fn hook_inner_name(name: &str, parent: &str) -> String { crate::generator::rasn::Rasn::default().inner_name(name, parent).to_string() }
+#[cfg(not(kani))]
+pub fn hook_snake(name: &str) -> String { crate::generator::rasn::Rasn::default().to_rust_snake_case(name).to_string() }
+#[cfg(not(kani))]
+pub fn hook_type_table(ty: &ASN1Type, name: &str, parent: &str, rec: bool) -> Result<String, String> {
+    crate::generator::rasn::Rasn::default().constraints_and_type_name(ty, name, parent, rec).map(|(_, t)| t.to_string()).map_err(|e| format!("{e:?}"))
+}
 /// accessors for the native replay of the Verus unit GEN_enum_members
 #[cfg(not(kani))]
 pub fn hook_format_enum_members(e: &crate::intermediate::types::Enumerated) -> Result<String, String> { crate::generator::rasn::Rasn::default().format_enum_members(e).map(|t| t.to_string()).map_err(|e| format!("{e:?}")) }
